@@ -118,12 +118,14 @@ LANG_EXT = {'C': '.c', 'CPP': '.cpp', 'D': '.d', 'CS': '.cs', 'JAVA': '.java', '
             'VALA': '.vala', 'PAWN': '.pawn', 'ECMA': '.es'}
 
 
-def fmt(src, lang, cfg='', args=(), kind='fast', dump=False, cpu=CPU_LIMIT, env=None, name=None, quiet=True):
+def fmt(src, lang, cfg='', args=(), kind='fast', dump=False, cpu=CPU_LIMIT, env=None, name=None, quiet=True, files=None):
     """format `src` (bytes) given on stdin.  cfg is config text ('' = built-in defaults via an empty file).
     returns (Result, dumps) ; dumps = {'tok0': path-bytes, 'preout': ..., 'space': ...} when dump"""
     with TempDir() as d:
         cfgp = os.path.join(d, 'c.cfg')
         write(cfgp, cfg)
+        for fn, data in (files or {}).items():      # (files the configuration refers to by relative name, e.g. an inserted header)
+            write(os.path.join(d, fn), data)
         a = ['-c', cfgp, '-l', lang]
         if quiet:
             a.append('-q')
